@@ -42,6 +42,32 @@ pub fn expected_budget(s: &str) -> (Bud, usize) {
     (b, maxd)
 }
 
+/// The text with the content of every line comment removed (`// ...` up to, not including, the LF that
+/// ends it; comments are found by the same lookahead reading as above: outside strings only).
+pub fn neutral_comments(s: &str) -> String {
+    let cs: Vec<char> = s.chars().collect();
+    let mut out = String::with_capacity(s.len());
+    let mut i = 0;
+    while i < cs.len() {
+        let c = cs[i];
+        if c == '/' && i + 1 < cs.len() && cs[i + 1] == '/' {
+            out.push_str("//");
+            while i < cs.len() && cs[i] != '\n' { i += 1; }
+            continue;
+        }
+        if c == '"' {
+            out.push(c);
+            i += 1;
+            while i < cs.len() && cs[i] != '"' { if cs[i] == '\\' && i + 1 < cs.len() { out.push(cs[i]); i += 1; } out.push(cs[i]); i += 1; }
+            if i < cs.len() { out.push('"'); i += 1; }
+            continue;
+        }
+        out.push(c);
+        i += 1;
+    }
+    out
+}
+
 pub fn observed_budget<T>(r: &Result<T, KipError>) -> Bud {
     match r {
         Err(e) if e.code == KipErrorCode::ResourceExhausted => {
@@ -130,6 +156,31 @@ pub fn evaluate(s: &str, with_json: bool) -> Eval {
         for (n, o) in obs {
             if o != exp {
                 fails.push(fail("budget", &format!("{n} answered {} but the limits say {} (depth {depth}, {} bytes)", o.name(), exp.name(), s.len()), s, json!({"entry": n})));
+            }
+        }
+    }
+    // 8. comment content is not text: emptying every comment changes neither the tree nor the kind of refusal
+    if s.len() <= MAX_KIP_INPUT_LEN {
+        let neutral = neutral_comments(s);
+        if neutral != s {
+            evals += 1;
+            if let (Some(a), Ok(b)) = (&kip, guard(|| anda_kip::parse_kip(&neutral))) {
+                let same = match (a, &b) { (Ok(x), Ok(y)) => x == y, (Err(x), Err(y)) => x.code == y.code, _ => false };
+                if !same {
+                    fails.push(fail("comment-content", "parse_kip depends on the content of a line comment (same text with the comments emptied parses differently)", s,
+                        json!({"with_comments": a.as_ref().map(|_| "accepted").map_err(|e| e.message.chars().take(200).collect::<String>()),
+                               "comments_emptied": b.as_ref().map(|_| "accepted").map_err(|e| e.message.chars().take(200).collect::<String>()), "neutral": neutral.chars().take(400).collect::<String>()})));
+                }
+            }
+            if let Some(a) = &js {
+                evals += 1;
+                if let Ok(b) = guard(|| anda_kip::parse_json(&neutral)) {
+                    let same = match (a, &b) { (Ok(x), Ok(y)) => x == y, (Err(x), Err(y)) => x.code == y.code, _ => false };
+                    if !same {
+                        fails.push(fail("comment-content", "parse_json depends on the content of a line comment", s,
+                            json!({"with_comments": a.is_ok(), "comments_emptied": b.is_ok(), "neutral": neutral.chars().take(400).collect::<String>()})));
+                    }
+                }
             }
         }
     }
